@@ -189,15 +189,24 @@ static void build(const c04_cfg *c)
 }
 
 static c04_cfg cfgs[4096]; static int ncfg;
-static void add(c04_cfg c) { if (c.prefill > c.Q) return; cfgs[ncfg++] = c; }
+static void add(c04_cfg c)
+{
+	if (c.prefill > c.Q) return;
+	/* the start states reached through 254/255 earlier claims cost ~1000 API calls per execution: small scenarios only */
+	if (c.adv >= 254 && !((c.topo == 0 && c.S <= 2 && c.M == 1) || (c.topo == 3 && c.S == 2 && c.M == 1) || (c.topo == 1 && c.S == 2) || (c.topo == 2 && c.S == 2 && c.M == 1))) return;
+	cfgs[ncfg++] = c;
+}
 static void enumerate(void)
 {
 	int th = vx_thorough();
 	for (int Q = 1; Q <= 3; Q++) {
-		int starts[4][2] = { {0, 0}, {Q - 1, 0}, {0, Q}, {1, Q - 1} };	/* (adv, prefill): fresh; cursor at Q-1; full; one slot free */
-		for (int si = 0; si < 4; si++) {
+		/* (adv, prefill): fresh; cursor at Q-1; full; one slot free; and 254/255 earlier claims, so that an 8-bit
+		 * cursor or ticket wraps inside the explored window */
+		int starts[6][2] = { {0, 0}, {Q - 1, 0}, {0, Q}, {1, Q - 1}, {254, 0}, {255, Q - 1} };
+		for (int si = 0; si < 6; si++) {
 			int adv = starts[si][0], pre = starts[si][1];
 			if (si && Q == 1 && si != 2) continue;
+			if (si >= 4 && Q != 3) continue;
 			/* free-running threads, all interleavings */
 			for (int M = 1; M <= 2; M++) {
 				add((c04_cfg){ 1, Q, M, 1, 0, adv, pre, 0, 0, -1 });
